@@ -380,8 +380,8 @@ MUTANTS = [
     {"id": "cleanup-swallows", "file": "_group.py", "old": "            self._rejoin_d = None\n            return result\n",
      "new": "            self._rejoin_d = None\n", "expect": "C17.R1"},
     {"id": "timer-handle-reset-after-guards", "file": "_group.py",
-     "old": "        if self._rejoin_wait_dc:\n            self._rejoin_wait_dc = None\n\n        if not self._rejoin_needed:\n            log.debug(\"join_and_sync: rejoin not needed\")\n            return\n\n        # prevent multiple concurrent request situations\n        if self._rejoin_d:\n            # XXX: This should throw, not silently ignore.\n            log.debug(\"join_and_sync: rejoin in progress\")\n            return\n",
-     "new": "        if not self._rejoin_needed:\n            log.debug(\"join_and_sync: rejoin not needed\")\n            return\n\n        # prevent multiple concurrent request situations\n        if self._rejoin_d:\n            # XXX: This should throw, not silently ignore.\n            log.debug(\"join_and_sync: rejoin in progress\")\n            return\n\n        self._rejoin_wait_dc = None\n",
+     "edits": [("_group.py", "        if self._rejoin_wait_dc:\n            self._rejoin_wait_dc = None\n\n        if self._stopping:", "        if self._stopping:"),
+               ("_group.py", "            log.debug(\"join_and_sync: rejoin in progress\")\n            return\n", "            log.debug(\"join_and_sync: rejoin in progress\")\n            return\n\n        self._rejoin_wait_dc = None\n")],
      "expect": "C17.R6", "note": "seeded C17-1"},
     {"id": "cleanup-on-success-only", "file": "_group.py", "old": "        d.addBoth(cleanup_rejoin_d).addErrback(rejoin_d_errback)",
      "new": "        d.addCallbacks(cleanup_rejoin_d, rejoin_d_errback)", "expect": "C17.R6", "note": "seeded C17-2"},
